@@ -738,3 +738,106 @@ func checkC19Containers(c *Ctx, n int) {
 		c.Check("container-field-declares-what-its-tag-says", pan == nil && err == nil && got == strings.Join(want, "; "), "C19:container", in, got, strings.Join(want, "; "))
 	}
 }
+
+// checkC19GroupAddGroup (library alone): a declaration attached with (*Group).AddGroup - below a group
+// the program created before - is checked like any other: two of its options sharing a short name, a
+// long name, or a long name that collides only through a nested group's namespace are refused with
+// ErrDuplicatedFlag; a declaration without a clash is accepted and its options are reachable.
+func checkC19GroupAddGroup(c *Ctx, n int) {
+	r := c.Rng
+	type plain struct {
+		A bool `short:"a" long:"alpha"`
+		B bool `short:"b" long:"beta"`
+	}
+	type dupShort struct {
+		A bool `short:"a" long:"alpha"`
+		B bool `short:"a" long:"beta"`
+	}
+	type dupLong struct {
+		A bool `short:"a" long:"same"`
+		B bool `short:"b" long:"same"`
+	}
+	type dupNs struct {
+		A   bool `long:"n.x"`
+		Sub struct {
+			X bool `long:"x"`
+		} `group:"Sub" namespace:"n"`
+	}
+	type okNs struct {
+		A   bool `long:"x"`
+		Sub struct {
+			X bool `long:"x"`
+		} `group:"Sub" namespace:"n"`
+	}
+	for i := 0; i < n; i++ {
+		var decl interface{}
+		kind := r.Intn(5)
+		wantDup := true
+		switch kind {
+		case 0:
+			decl, wantDup = &plain{}, false
+		case 1:
+			decl = &dupShort{}
+		case 2:
+			decl = &dupLong{}
+		case 3:
+			decl = &dupNs{}
+		default:
+			decl, wantDup = &okNs{}, false
+		}
+		where := []string{"Group.AddGroup", "Group.AddGroup below a nested group", "Command.AddGroup", "Parser.AddGroup"}[r.Intn(4)]
+		var err error
+		pan := safe(func() {
+			p := flags.NewNamedParser("app", flags.None)
+			base := &struct {
+				V bool `short:"v"`
+			}{}
+			g, e0 := p.AddGroup("Base", "", base)
+			if e0 != nil {
+				err = e0
+				return
+			}
+			switch where {
+			case "Group.AddGroup":
+				_, err = g.AddGroup("Late", "", decl)
+			case "Group.AddGroup below a nested group":
+				g2, e1 := g.AddGroup("Mid", "", &struct {
+					W bool `short:"w"`
+				}{})
+				if e1 != nil {
+					err = e1
+					return
+				}
+				_, err = g2.AddGroup("Late", "", decl)
+			case "Command.AddGroup":
+				cmd, e1 := p.AddCommand("run", "run", "", &struct{}{})
+				if e1 != nil {
+					err = e1
+					return
+				}
+				_, err = cmd.AddGroup("Late", "", decl)
+			default:
+				_, err = p.AddGroup("Late", "", decl)
+			}
+		})
+		c.R.Evaluations++
+		desc := fmt.Sprintf("%T attached with %s", decl, where)
+		c.Distinct("c19addgroup|" + desc)
+		c.Class("c19/late-group via " + where + fmt.Sprintf(" clash=%v", wantDup))
+		in := map[string]interface{}{"declaration": fmt.Sprintf("%T", decl), "attached_with": where}
+		got := "accepted"
+		if pan != nil {
+			got = fmt.Sprintf("panic: %v", pan)
+		} else if fe, ok := err.(*flags.Error); ok {
+			got = fmt.Sprintf("*flags.Error type %d: %s", fe.Type, fe.Message)
+		} else if err != nil {
+			got = "error: " + err.Error()
+		}
+		if wantDup {
+			fe, ok := err.(*flags.Error)
+			c.Check("a-clash-inside-a-late-declaration-is-refused", pan == nil && ok && fe.Type == flags.ErrDuplicatedFlag, "C19:group-addgroup", in, got, "ErrDuplicatedFlag")
+		} else {
+			c.Check("a-late-declaration-without-a-clash-is-accepted", pan == nil && err == nil, "C19:group-addgroup", in, got, "accepted")
+		}
+	}
+}
